@@ -122,8 +122,11 @@ def main():
         "checks": checks,
         "not_applicable": na,
         "notes": "All checks: exit 0 held / 1 violation / 2 harness error. VERIF_SEED selects the random streams; "
-                 "PYTHONHASHSEED is pinned to 0 by the runner. known_findings.json lists genuine defects found "
-                 "(all repaired by fix: commits in /repo). seeded/ holds independent property-breaking changes "
+                 "PYTHONHASHSEED is pinned to 0 by the runner; a quarter of every check's cases additionally runs in "
+                 "a python -O child. known_findings.json lists the genuine defects found: 14 repaired by fix: "
+                 "commits in /repo (status fixed, suppress nothing) and one recorded as known (C14, an atom record of "
+                 "nine numeric tokens is indistinguishable from a box line): C14 prints a KNOWN-FINDING line for it "
+                 "and exits 0. seeded/ holds independent property-breaking changes "
                  "used to test the checks; DESIGN.md section 9 records which check catches which.",
     }
     with open(os.path.join(HERE, "MANIFEST.json"), "w") as f:
